@@ -53,6 +53,12 @@ pub fn mem_lens(mode: Mode, tier: Tier) -> (Vec<usize>, usize) {
             l.push(big);
         }
     }
+    // one length of every plan class just above 2^16 (16-bit index arithmetic: gather indexes, i*i products)
+    for (big, _) in lens::beyond_u16(tier == Tier::Thorough) {
+        if !l.contains(&big) {
+            l.push(big);
+        }
+    }
     // interleave large and small so that stripes (index mod workers) are balanced
     (l, dense_n)
 }
@@ -338,9 +344,12 @@ pub fn worker_main(args: &[String]) -> i32 {
         (Mode::C03, Tier::Quick) => 3,
         _ => 8,
     };
-    let nmax = my.iter().copied().max().unwrap_or(1);
-    let elems = |n: usize| -> usize { (if n <= dense_n { kmax_dense.max(4) } else if n > 16000 { 2 } else { 4 }) * n + n + 2 };
-    let bytes = elems(nmax) * 16;
+    // the largest buffer any case of this stripe needs: up to 8 chunks (+1 for the ill-shaped variants) below the
+    // large-length range, 2 chunks (+1) above it; the maximum is taken over ALL lengths of the stripe (a mid-size
+    // length with 8 chunks needs more than the largest length with 2)
+    let _ = (dense_n, kmax_dense);
+    let elems = |n: usize| -> usize { (if n > 16000 { 2 } else { 8 }) * n + n + 2 };
+    let bytes = my.iter().map(|&n| elems(n)).max().unwrap_or(4) * 16;
     // scratch can be larger than the data (Bluestein): be generous, it is only address space
     let mut w = Worker { mode, counter: 0, skip_upto, single, evaluations: 0, nontrivial: 0, states: 0, a_in: Arena::new(bytes), a_ro: DualArena::new(if mode == Mode::C15 { bytes } else { 4096 }), a_out: Arena::new(bytes), a_scr: Arena::new(bytes * 4 + (1 << 20)), dbg_build: cfg!(debug_assertions) };
     for &n in &my {
